@@ -514,7 +514,8 @@ theorem cursor_lt_len (f : Nat → Bool) {x n : Nat} (h : cnt f x < cnt f n) : x
   · exact hx
   · have := cnt_mono f (show n ≤ x by omega); omega
 
-/-- **`nth(n)` inside the range.** -/
+/-- **`nth(n)` inside the range** (any `n : Nat`; the repaired `nth` compares `n` with `limit - next`, so no rank
+sum can overflow). -/
 theorem nthQ_some {b : BitVector} {v : RawVec} (C : Ctx b v) (tr : Tr) (m : Mode) {it : OneIterSt} {r R : Nat}
     (hrel : Rel tr v it r R) (n : Nat) (h : r + n < R) :
     ∃ p, (onesPos (bitsT tr v.bits))[r + n]? = some p ∧
@@ -531,9 +532,10 @@ theorem nthQ_some {b : BitVector} {v : RawVec} (C : Ctx b v) (tr : Tr) (m : Mode
   have hxl : it.next.2 < b.data.len := cursor_lt_len (bitT tr b.data) (by omega)
   refine ⟨p, (P_iff tr b.data _ p).mpr ⟨hp, hpr⟩, ?_, ?_⟩
   · unfold OneIterSt.nthQ
-    rw [h1, addM_ok (by rw [U64_eq]; omega)]
+    rw [h1, h2, subM_ok h3]
     simp only [bind_ok]
-    rw [if_neg (by omega)]
+    rw [if_neg (by omega), addM_ok (by rw [U64_eq]; omega)]
+    simp only [bind_ok]
     have hidx : it.next.2 / 64 < b.data.data.size := word_lt_size hwf hxl
     have e : 64 * (it.next.2 / 64) + it.next.2 % 64 = it.next.2 := by omega
     have hscan := scan_ok_cnt hwf tr m p hp (by omega) (b.data.data.size + 1) (it.next.2 / 64) (it.next.2 % 64) n
@@ -549,16 +551,16 @@ theorem nthQ_some {b : BitVector} {v : RawVec} (C : Ctx b v) (tr : Tr) (m : Mode
     show cnt (bitT tr b.data) (p + 1) = r + n + 1
     rw [cnt_succ, hp, hpr]; rfl
 
-/-- **`nth(n)` past the range** (with `r + n < 2^64`, so the rank addition does not overflow): `None`, and the
-iterator is exhausted (`next := limit`). -/
+/-- **`nth(n)` past the range** (EVERY `n : Nat`, however large): `None`, and the iterator is exhausted
+(`next := limit`); no fault in either arithmetic mode. -/
 theorem nthQ_none {b : BitVector} {v : RawVec} (tr : Tr) (m : Mode) {it : OneIterSt} {r R : Nat}
-    (hrel : Rel tr v it r R) (n : Nat) (h : R ≤ r + n) (h64 : r + n < 2 ^ 64) :
+    (hrel : Rel tr v it r R) (n : Nat) (h : R ≤ r + n) :
     OneIterSt.nthQ tr m b it n = ok (none, { it with next := it.limit }) ∧
       Rel tr v { it with next := it.limit } R R := by
   obtain ⟨h1, h2, h3, h4, h5, h6, h7, h8⟩ := hrel
   constructor
   · unfold OneIterSt.nthQ
-    rw [h1, addM_ok (by rw [U64_eq]; omega)]
+    rw [h1, h2, subM_ok h3]
     simp only [bind_ok]
     rw [if_pos (by omega)]
     rfl
@@ -700,6 +702,74 @@ theorem remaining_eq {tr : Tr} {v : RawVec} {it : OneIterSt} {r R : Nat} (hrel :
     it.remaining = R - r := by
   unfold OneIterSt.remaining; rw [hrel.next_rank, hrel.limit_rank]
 
+/-! ### `nth_back` (not specialised by `OneIter`: the `DoubleEndedIterator` default) -/
+
+/-- the default `nth_back(k)`: `k` times `next_back`, stopping with `None` at the first `None`, then one more
+`next_back` -/
+def nthBackQ (tr : Tr) (m : Mode) (b : BitVector) : Nat → OneIterSt → Outcome (Option (Nat × Nat) × OneIterSt)
+  | 0, it => OneIterSt.nextBackQ tr m b it
+  | k + 1, it => do
+    let r ← OneIterSt.nextBackQ tr m b it
+    match r.1 with
+    | none => return (none, r.2)
+    | some _ => nthBackQ tr m b k r.2
+
+/-- **`nth_back(k)` inside the range**: returns `(R-k-1, P[R-k-1])` and leaves `[r, R-k-1)`. -/
+theorem nthBackQ_some {b : BitVector} {v : RawVec} (C : Ctx b v) (tr : Tr) (m : Mode) :
+    ∀ (k : Nat) {it : OneIterSt} {r R : Nat}, Rel tr v it r R → r + k < R →
+    ∃ p, (onesPos (bitsT tr v.bits))[R - k - 1]? = some p ∧
+      nthBackQ tr m b k it = ok (some (R - k - 1, p), { it with limit := (R - k - 1, p) }) ∧
+      Rel tr v { it with limit := (R - k - 1, p) } r (R - k - 1) := by
+  intro k
+  induction k with
+  | zero =>
+    intro it r R hrel h
+    unfold nthBackQ
+    exact nextBackQ_some C tr m hrel (by omega)
+  | succ k ih =>
+    intro it r R hrel h
+    obtain ⟨q, hq1, hq2, hq3⟩ := nextBackQ_some C tr m hrel (by omega)
+    obtain ⟨p, hp1, hp2, hp3⟩ := ih hq3 (by omega)
+    have e : R - 1 - k - 1 = R - (k + 1) - 1 := by omega
+    rw [e] at hp1 hp2 hp3
+    refine ⟨p, hp1, ?_, hp3⟩
+    unfold nthBackQ
+    rw [hq2]
+    simp only [bind_ok]
+    exact hp2
+
+/-- **`nth_back(k)` past the range**: `None`, and the iterator is exhausted. -/
+theorem nthBackQ_none {b : BitVector} {v : RawVec} (C : Ctx b v) (tr : Tr) (m : Mode) :
+    ∀ (k : Nat) {it : OneIterSt} {r R : Nat}, Rel tr v it r R → R ≤ r + k →
+    ∃ it', nthBackQ tr m b k it = ok (none, it') ∧ Rel tr v it' r r := by
+  intro k
+  induction k with
+  | zero =>
+    intro it r R hrel h
+    have hle := hrel.le
+    have e : R = r := by omega
+    subst e
+    refine ⟨it, ?_, hrel⟩
+    unfold nthBackQ
+    exact nextBackQ_none tr m b it (by rw [hrel.next_rank, hrel.limit_rank]; omega)
+  | succ k ih =>
+    intro it r R hrel h
+    have hle := hrel.le
+    by_cases hlt : r < R
+    · obtain ⟨q, hq1, hq2, hq3⟩ := nextBackQ_some C tr m hrel hlt
+      obtain ⟨it', hp1, hp2⟩ := ih hq3 (by omega)
+      refine ⟨it', ?_, hp2⟩
+      unfold nthBackQ
+      rw [hq2]
+      simp only [bind_ok]
+      exact hp1
+    · have e : R = r := by omega
+      subst e
+      refine ⟨it, ?_, hrel⟩
+      unfold nthBackQ
+      rw [nextBackQ_none tr m b it (by rw [hrel.next_rank, hrel.limit_rank]; omega)]
+      rfl
+
 /-! ### the combined simulation for `OneIter<T>` -/
 
 /-- the reference sequence of the set-bit iterator: `(rank, position)` pairs -/
@@ -723,12 +793,13 @@ def optOut {α} : Option α → IOut α
   | none => .none
   | some a => .item a
 
-/-- one call of `OneIter<T>` in the call alphabet (`nth_back` is not specialised by `OneIter` and is excluded) -/
+/-- one call of `OneIter<T>` in the call alphabet (`nth_back` is not specialised by `OneIter`: it is the default
+iteration of `next_back`, `nthBackQ`) -/
 def oneStep (tr : Tr) (m : Mode) (b : BitVector) (it : OneIterSt) : ICall → Outcome (IOut (Nat × Nat) × OneIterSt)
   | .next => do let r ← OneIterSt.nextQ tr m b it; return (optOut r.1, r.2)
   | .nextBack => do let r ← OneIterSt.nextBackQ tr m b it; return (optOut r.1, r.2)
   | .nth k => do let r ← OneIterSt.nthQ tr m b it k; return (optOut r.1, r.2)
-  | .nthBack _ => fault (.panic .other)
+  | .nthBack k => do let r ← nthBackQ tr m b k it; return (optOut r.1, r.2)
   | .len => ok (.len it.remaining, it)
 
 def oneRun (tr : Tr) (m : Mode) (b : BitVector) : OneIterSt → List ICall → Outcome (List (IOut (Nat × Nat)))
@@ -739,11 +810,10 @@ def oneRun (tr : Tr) (m : Mode) (b : BitVector) : OneIterSt → List ICall → O
     return r.1 :: os
 
 /-- **One step of `OneIter<T>` against the reference deque** on the `(rank, position)` pairs restricted to
-`[r, R)`: same answer, no fault in either arithmetic mode, relation preserved.  Call alphabet:
-`next`, `next_back`, `nth k` with `r + k < 2^64`, `len`. -/
+`[r, R)`: same answer, no fault in either arithmetic mode, relation preserved.  Call alphabet: all of
+`next`, `next_back`, `nth k`, `nth_back k` (every `k : Nat`), `len`. -/
 theorem oneStep_sim {b : BitVector} {v : RawVec} (C : Ctx b v) (tr : Tr) (m : Mode) {it : OneIterSt} {r R : Nat}
-    (hrel : Rel tr v it r R) (call : ICall) (hnb : ∀ k, call ≠ .nthBack k)
-    (hk : ∀ k, call = .nth k → r + k < 2 ^ 64) :
+    (hrel : Rel tr v it r R) (call : ICall) :
     ∃ it' r' R', oneStep tr m b it call =
         ok ((dequeStep (seg (pairs (onesPos (bitsT tr v.bits))) r R) call).1, it') ∧
       (dequeStep (seg (pairs (onesPos (bitsT tr v.bits))) r R) call).2 =
@@ -778,60 +848,60 @@ theorem oneStep_sim {b : BitVector} {v : RawVec} (C : Ctx b v) (tr : Tr) (m : Mo
       rw [seg_cons _ _ hx (r + k) R h hRl, hp2]
       simp only [bind_ok, pure_eq, optOut, hp1, Option.getD_some]
       exact ⟨_, r + k + 1, R, rfl, rfl, hp3⟩
-    · obtain ⟨hp2, hp3⟩ := nthQ_none (b := b) tr m hrel k (by omega) (hk k rfl)
+    · obtain ⟨hp2, hp3⟩ := nthQ_none (b := b) tr m hrel k (by omega)
       rw [seg_nil _ _ _ (by omega), hp2]
       exact ⟨_, R, R, rfl, (seg_nil _ _ _ (Nat.le_refl _)).symm, hp3⟩
-  | nthBack k => exact absurd rfl (hnb k)
+  | nthBack k =>
+    simp only [oneStep, dequeStep]
+    simp only [seg_length _ r R hRl]
+    by_cases h : r + k < R
+    · obtain ⟨p, hp1, hp2, hp3⟩ := nthBackQ_some C tr m k hrel h
+      have e3 : r + (R - r - k) = R - k := by omega
+      rw [seg_take _ r R _ (by omega), e3, seg_getLast? _ _ hx r (R - k) (by omega) (by omega),
+        seg_dropLast _ r (R - k) (by omega) (by omega), hp2]
+      simp only [bind_ok, pure_eq, optOut, hp1, Option.getD_some]
+      exact ⟨_, r, R - k - 1, rfl, rfl, hp3⟩
+    · obtain ⟨it', hq1, hq2⟩ := nthBackQ_none C tr m k hrel (by omega)
+      have e2 : R - r - k = 0 := by omega
+      rw [e2, List.take_zero, hq1]
+      exact ⟨it', r, r, rfl, (seg_nil _ _ _ (Nat.le_refl _)).symm, hq2⟩
   | len =>
     simp only [oneStep, dequeStep]
     rw [seg_length _ r R hRl, remaining_eq hrel]
     exact ⟨it, r, R, rfl, rfl, hrel⟩
 
-/-- a call the set-bit iterator is specified for: not `nth_back`, and `nth k` only with `k + |P| < 2^64`
-(so that `rank + k` cannot overflow whatever the current rank is) -/
-def Admissible (n : Nat) : ICall → Prop
-  | .nthBack _ => False
-  | .nth k => k + n < 2 ^ 64
-  | _ => True
-
-/-- **Every finite history of admissible calls** on a set-bit iterator standing for the ranks `[r, R)` yields
-exactly what the reference deque yields, with no fault in either arithmetic mode. -/
-theorem oneRun_sim {b : BitVector} {v : RawVec} (C : Ctx b v) (tr : Tr) (m : Mode) (calls : List ICall)
-    (hadm : ∀ c, c ∈ calls → Admissible (onesPos (bitsT tr v.bits)).length c) :
+/-- **Every finite call history** (`next` / `next_back` / `nth k` / `nth_back k` with arbitrary `k : Nat` / `len`,
+in any interleaving) on a set-bit iterator standing for the ranks `[r, R)` yields exactly what the reference deque
+yields, with no fault in either arithmetic mode. -/
+theorem oneRun_sim {b : BitVector} {v : RawVec} (C : Ctx b v) (tr : Tr) (m : Mode) (calls : List ICall) :
     ∀ {it : OneIterSt} {r R : Nat}, Rel tr v it r R →
       oneRun tr m b it calls = ok (dequeRunM (seg (pairs (onesPos (bitsT tr v.bits))) r R) calls) := by
   induction calls with
   | nil => intro it r R _; rfl
   | cons c cs ih =>
     intro it r R hrel
-    have hc := hadm c (List.mem_cons_self)
     obtain ⟨it', r', R', h1, h2, h3⟩ := oneStep_sim C tr m hrel c
-      (fun k hk => by rw [hk] at hc; exact hc)
-      (fun k hk => by
-        rw [hk] at hc
-        have := hrel.le; have := hrel.R_le
-        simp only [Admissible] at hc; omega)
     unfold oneRun dequeRunM
     rw [h1]
     simp only [bind_ok, h2]
-    rw [ih (fun c' hc' => hadm c' (List.mem_cons_of_mem _ hc')) h3]
+    rw [ih h3]
     rfl
 
 /-- the full iterator (`one_iter` / `zero_iter`) yields the `(rank, position)` pairs of all set bits -/
-theorem oneRun_full {b : BitVector} {v : RawVec} (C : Ctx b v) (tr : Tr) (m : Mode) (calls : List ICall)
-    (hadm : ∀ c, c ∈ calls → Admissible (onesPos (bitsT tr v.bits)).length c) :
+theorem oneRun_full {b : BitVector} {v : RawVec} (C : Ctx b v) (tr : Tr) (m : Mode) (calls : List ICall) :
     oneRun tr m b (OneIterSt.full tr b) calls = ok (dequeRunM (pairs (onesPos (bitsT tr v.bits))) calls) := by
-  rw [oneRun_sim C tr m calls hadm (Rel_full C tr)]
+  rw [oneRun_sim C tr m calls (Rel_full C tr)]
   congr 2
   unfold seg
   rw [← pairs_length, List.take_length, List.drop_zero]
 
-/-! ### 5. the known defect F1: `nth` adds `n` to the rank without clamping -/
+/-! ### 5. the defect F1 of `nth` as first written (`OneIterSt.nthQOld`): it adds `n` to the rank without clamping;
+the repaired `nth` (`OneIterSt.nthQ`) answers `None` on the same inputs -/
 
-/-- in a checked build `nth(n)` panics as soon as `rank + n` overflows (any vector, any state) -/
+/-- in a checked build the ORIGINAL `nth(n)` panics as soon as `rank + n` overflows (any vector, any state) -/
 theorem nthQ_checked_overflow (tr : Tr) (b : BitVector) (it : OneIterSt) (n : Nat) (h : 2 ^ 64 ≤ it.next.1 + n) :
-    OneIterSt.nthQ tr .checked b it n = fault (.panic .overflow) := by
-  unfold OneIterSt.nthQ addM
+    OneIterSt.nthQOld tr .checked b it n = fault (.panic .overflow) := by
+  unfold OneIterSt.nthQOld addM
   rw [if_neg (by rw [U64_eq]; omega)]
   rfl
 
@@ -848,19 +918,39 @@ theorem bEx_ctx : Ctx bEx (RawVec.ofBits [true, true]) := by
 theorem F1_setup : OneIterSt.nextQ .ident .checked bEx (OneIterSt.full .ident bEx) =
     ok (some (0, 0), ⟨(1, 1), (2, 2)⟩) := by decide +kernel
 
-/-- **F1, checked build**: `nth(2^64 - 1)` after one `next` panics on `next.0 + n` (the reference answer is `None`) -/
-theorem F1_checked : OneIterSt.nthQ .ident .checked bEx ⟨(1, 1), (2, 2)⟩ (2 ^ 64 - 1) = fault (.panic .overflow) := by
+/-- **F1, checked build** (original code): `nth(2^64 - 1)` after one `next` panics on `next.0 + n` (the reference
+answer is `None`) -/
+theorem F1_checked : OneIterSt.nthQOld .ident .checked bEx ⟨(1, 1), (2, 2)⟩ (2 ^ 64 - 1) = fault (.panic .overflow) := by
   decide +kernel
 
-/-- **F1, release build**: the sum wraps to `0 < limit`, the counted scan runs past the single data word and
+/-- **F1, release build** (original code): the sum wraps to `0 < limit`, the counted scan runs past the single data word and
 reads out of bounds -/
-theorem F1_wrapping : OneIterSt.nthQ .ident .wrapping bEx ⟨(1, 1), (2, 2)⟩ (2 ^ 64 - 1) = fault .oob := by
+theorem F1_wrapping : OneIterSt.nthQOld .ident .wrapping bEx ⟨(1, 1), (2, 2)⟩ (2 ^ 64 - 1) = fault .oob := by
   decide +kernel
 
-theorem F1_checked0 : OneIterSt.nthQ .ident .checked bEx0 ⟨(1, 1), (2, 2)⟩ (2 ^ 64 - 1) = fault (.panic .overflow) := by
+theorem F1_checked0 : OneIterSt.nthQOld .ident .checked bEx0 ⟨(1, 1), (2, 2)⟩ (2 ^ 64 - 1) = fault (.panic .overflow) := by
   decide +kernel
 
-theorem F1_wrapping0 : OneIterSt.nthQ .ident .wrapping bEx0 ⟨(1, 1), (2, 2)⟩ (2 ^ 64 - 1) = fault .oob := by
+theorem F1_wrapping0 : OneIterSt.nthQOld .ident .wrapping bEx0 ⟨(1, 1), (2, 2)⟩ (2 ^ 64 - 1) = fault .oob := by
+  decide +kernel
+
+/-- **F1 repaired, checked build**: the repaired `nth(2^64 - 1)` on the same state answers `None` and exhausts the
+iterator, as the reference does (`F1_reference`) -/
+theorem F1_fixed_checked :
+    OneIterSt.nthQ .ident .checked bEx ⟨(1, 1), (2, 2)⟩ (2 ^ 64 - 1) = ok (none, ⟨(2, 2), (2, 2)⟩) := by
+  decide +kernel
+
+/-- **F1 repaired, release build**: the same answer -/
+theorem F1_fixed_wrapping :
+    OneIterSt.nthQ .ident .wrapping bEx ⟨(1, 1), (2, 2)⟩ (2 ^ 64 - 1) = ok (none, ⟨(2, 2), (2, 2)⟩) := by
+  decide +kernel
+
+theorem F1_fixed_checked0 :
+    OneIterSt.nthQ .ident .checked bEx0 ⟨(1, 1), (2, 2)⟩ (2 ^ 64 - 1) = ok (none, ⟨(2, 2), (2, 2)⟩) := by
+  decide +kernel
+
+theorem F1_fixed_wrapping0 :
+    OneIterSt.nthQ .ident .wrapping bEx0 ⟨(1, 1), (2, 2)⟩ (2 ^ 64 - 1) = ok (none, ⟨(2, 2), (2, 2)⟩) := by
   decide +kernel
 
 /-- what the reference deque answers to the same call: `None` -/
@@ -982,12 +1072,22 @@ theorem bitsT_ident (B : List Bool) : bitsT .ident B = B := rfl
 theorem rankSpec_le_P (B : List Bool) (y : Nat) : rankSpec B y ≤ (onesPos B).length := by
   rw [← filter_lt_length B y]; exact List.length_filter_le _ _
 
-/-- **`predecessor(x)` for `x + 1 < 2^64`** (valid rank and select supports): the empty iterator when no set bit
+/-- the saturated `x + 1` has the same rank as `x + 1`: when it is clamped to `2^64 - 1` both are past the end of
+the vector (`len < 2^64`) -/
+theorem rankSpec_satAdd {v : RawVec} (hlen : v.len < 2 ^ 64) (x : Nat) :
+    rankSpec v.bits (BitVector.satAdd x 1) = rankSpec v.bits (x + 1) := by
+  unfold BitVector.satAdd
+  by_cases h : x + 1 ≤ U64 - 1
+  · rw [Nat.min_eq_left h]
+  · rw [Nat.min_eq_right (by omega), rankSpec_of_ge _ _ (by rw [length_bits, U64_eq]; omega),
+      rankSpec_of_ge _ _ (by rw [length_bits]; rw [U64_eq] at h; omega)]
+
+/-- **`predecessor(x)` for EVERY `x : Nat`** (valid rank and select supports): the empty iterator when no set bit
 is `≤ x`, otherwise the iterator state `(k, P[k])` with `predSpec = some (k, P[k])`, which stands for the ranks
 `[k, |P|)`; no fault in either arithmetic mode. -/
 theorem predecessorQ_ok {b : BitVector} {v : RawVec} {rs : RankSup} {s : SelSup} (C : Ctx b v)
     (hrank : b.rank = some rs) (hrs : rs.Valid v) (hsel : b.select = some s) (hs : s.Valid .ident v)
-    (m : Mode) (x : Nat) (hx : x + 1 < 2 ^ 64) :
+    (m : Mode) (x : Nat) :
     match predSpec v.bits x with
     | none => b.predecessorQ m x = ok (OneIterSt.emptyIter .ident b)
     | some (k, p) =>
@@ -1002,9 +1102,8 @@ theorem predecessorQ_ok {b : BitVector} {v : RawVec} {rs : RankSup} {s : SelSup}
       if rankSpec v.bits (x + 1) = 0 then ok (OneIterSt.emptyIter .ident b)
       else b.selectIterT .ident m (rankSpec v.bits (x + 1) - 1) := by
     unfold BitVector.predecessorQ
-    rw [addM_ok (by rw [U64_eq]; exact hx)]
-    simp only [bind_ok]
-    rw [rankQ_ok C.wf C.data hrank hrs C.ones (x + 1)]
+    simp only []
+    rw [rankQ_ok C.wf C.data hrank hrs C.ones (BitVector.satAdd x 1), rankSpec_satAdd C.len x]
     simp only [bind_ok, pure_eq]
   have hle := rankSpec_le_P v.bits (x + 1)
   by_cases hk : rankSpec v.bits (x + 1) = 0
@@ -1048,21 +1147,27 @@ theorem successorQ_ok {b : BitVector} {v : RawVec} {rs : RankSup} {s : SelSup} (
     rw [hse]
     exact ⟨hp1, by rw [hq]; exact hp2, hp3⟩
 
-/-! the known defect F2: `predecessor` adds 1 to the value without clamping -/
+/-! the defect F2 of `predecessor` as first written (`BitVector.predecessorQOld`): it adds 1 to the value without
+clamping; the repaired `predecessor` (`BitVector.predecessorQ`, `saturating_add`) agrees with the reference -/
 
-/-- **F2, checked build**: `predecessor(2^64 - 1)` panics, whatever the vector -/
-theorem F2_checked (b : BitVector) : b.predecessorQ .checked (2 ^ 64 - 1) = fault (.panic .overflow) := by
-  unfold BitVector.predecessorQ addM
+/-- **F2, checked build** (original code): `predecessor(2^64 - 1)` panics, whatever the vector -/
+theorem F2_checked (b : BitVector) : b.predecessorQOld .checked (2 ^ 64 - 1) = fault (.panic .overflow) := by
+  unfold BitVector.predecessorQOld addM
   rw [if_neg (by rw [U64_eq]; omega)]
   rfl
 
-/-- **F2, release build**: the value wraps to 0, `rank(0) = 0`, and the result is the EMPTY iterator although the
+/-- **F2, release build** (original code): the value wraps to 0, `rank(0) = 0`, and the result is the EMPTY iterator although the
 vector `11` has set bits `≤ 2^64 - 1` (the reference answer is rank 1 at position 1) -/
-theorem F2_wrapping : bEx.predecessorQ .wrapping (2 ^ 64 - 1) = ok (OneIterSt.emptyIter .ident bEx) := by
+theorem F2_wrapping : bEx.predecessorQOld .wrapping (2 ^ 64 - 1) = ok (OneIterSt.emptyIter .ident bEx) := by
   decide +kernel
 
 theorem F2_reference : predSpec (RawVec.ofBits [true, true]).bits (2 ^ 64 - 1) = some (1, 1) := by
   decide +kernel
+
+/-- **F2 repaired** (both builds): `predecessor(2^64 - 1)` on `11` is the iterator at rank 1, position 1, as the
+reference says (`F2_reference`) -/
+theorem F2_fixed (m : Mode) : bEx.predecessorQ m (2 ^ 64 - 1) = ok ⟨(1, 1), (2, 2)⟩ := by
+  cases m <;> decide +kernel
 
 /-! ### the relation in terms of the position list, and absorbing `None` for `OneIter<T>` -/
 
@@ -1121,22 +1226,20 @@ theorem dequeRun_nil {α} (calls : List ICall) : ∀ o, o ∈ dequeRunM ([] : Li
     · rw [hs.2] at ho; exact ih o ho
 
 /-- **`None` is absorbing for `OneIter<T>`**: once the ranks are used up (`R ≤ r`, which is the state after any
-call that answered `None`), every admissible call history answers only `None` / length 0, without fault -/
+call that answered `None`), every call history answers only `None` / length 0, without fault -/
 theorem oneRun_exhausted {b : BitVector} {v : RawVec} (C : Ctx b v) (tr : Tr) (m : Mode) (calls : List ICall)
-    (hadm : ∀ c, c ∈ calls → Admissible (onesPos (bitsT tr v.bits)).length c)
     {it : OneIterSt} {r R : Nat} (hrel : Rel tr v it r R) (h : R ≤ r) :
     ∃ os, oneRun tr m b it calls = ok os ∧ ∀ o, o ∈ os → IsEmptyOut o := by
-  refine ⟨_, oneRun_sim C tr m calls hadm hrel, ?_⟩
+  refine ⟨_, oneRun_sim C tr m calls hrel, ?_⟩
   rw [seg_nil _ _ _ h]
   exact dequeRun_nil calls
 
 /-- an item call that answers `None` leaves the iterator exhausted (`r' = R'`) -/
 theorem oneStep_none_exhausted {b : BitVector} {v : RawVec} (C : Ctx b v) (tr : Tr) (m : Mode) {it : OneIterSt}
-    {r R : Nat} (hrel : Rel tr v it r R) (call : ICall) (hnb : ∀ k, call ≠ .nthBack k) (hlen : call ≠ .len)
-    (hk : ∀ k, call = .nth k → r + k < 2 ^ 64)
+    {r R : Nat} (hrel : Rel tr v it r R) (call : ICall) (hlen : call ≠ .len)
     (hnone : (dequeStep (seg (pairs (onesPos (bitsT tr v.bits))) r R) call).1 = .none) :
     ∃ it' r', oneStep tr m b it call = ok (.none, it') ∧ Rel tr v it' r' r' := by
-  obtain ⟨it', r', R', h1, h2, h3⟩ := oneStep_sim C tr m hrel call hnb hk
+  obtain ⟨it', r', R', h1, h2, h3⟩ := oneStep_sim C tr m hrel call
   rw [hnone] at h1
   have hnil := deque_none_empty _ call hlen hnone
   rw [hnil] at h2
@@ -1184,13 +1287,12 @@ theorem ctx_ofRaw {v : RawVec} (hv : v.WF) (hlen : v.len < 2 ^ 64) : Ctx (BitVec
 
 /-- `one_iter` / `zero_iter` of `BitVector::from(raw)` (no support needed): the reference sequence, no fault -/
 theorem oneRun_full_ofRaw {v : RawVec} (hv : v.WF) (hlen : v.len < 2 ^ 64) (tr : Tr) (m : Mode)
-    (calls : List ICall) (hadm : ∀ c, c ∈ calls → Admissible (onesPos (bitsT tr v.bits)).length c) :
+    (calls : List ICall) :
     oneRun tr m (BitVector.ofRaw v) (OneIterSt.full tr (BitVector.ofRaw v)) calls =
       ok (dequeRunM (pairs (onesPos (bitsT tr v.bits))) calls) :=
-  oneRun_full (ctx_ofRaw hv hlen) tr m calls hadm
+  oneRun_full (ctx_ofRaw hv hlen) tr m calls
 
-theorem predecessorQ_enableAll {v : RawVec} (hv : v.WF) (hlen : v.len < 2 ^ 64) (m : Mode) (x : Nat)
-    (hx : x + 1 < 2 ^ 64) :
+theorem predecessorQ_enableAll {v : RawVec} (hv : v.WF) (hlen : v.len < 2 ^ 64) (m : Mode) (x : Nat) :
     match predSpec v.bits x with
     | none => (BitVector.ofRaw v).enableAll.predecessorQ m x =
         ok (OneIterSt.emptyIter .ident (BitVector.ofRaw v).enableAll)
@@ -1200,7 +1302,7 @@ theorem predecessorQ_enableAll {v : RawVec} (hv : v.WF) (hlen : v.len < 2 ^ 64) 
         ok ⟨(k, p), ((BitVector.ofRaw v).enableAll.countT .ident, (BitVector.ofRaw v).enableAll.len)⟩ ∧
       Rel .ident v ⟨(k, p), ((BitVector.ofRaw v).enableAll.countT .ident, (BitVector.ofRaw v).enableAll.len)⟩ k
         (onesPos v.bits).length :=
-  predecessorQ_ok (ctx_enableAll hv hlen) rfl (build_valid hv hlen) rfl (SelSup.build_valid hv hlen .ident) m x hx
+  predecessorQ_ok (ctx_enableAll hv hlen) rfl (build_valid hv hlen) rfl (SelSup.build_valid hv hlen .ident) m x
 
 theorem successorQ_enableAll {v : RawVec} (hv : v.WF) (hlen : v.len < 2 ^ 64) (m : Mode) (x : Nat) :
     match succSpec v.bits x with
